@@ -221,3 +221,170 @@ def load_errors_propagate_rule(ctx, rid):
             else:
                 rr.ok("Reaper.__call__: next(self.results) without default, exhaustion propagates")
     return rr
+
+
+# ---------------------------------------------------------------- crop file naming
+def crop_paths(ctx):
+    """Every path built under the crop location in the cropping module:
+    -> [(fi, join call, rel components tuple with '@' for runtime parts)]"""
+    from ..util import ConstFold, LOCATION_STANDIN
+    m = ctx.prog.modules.get(CROP)
+    need(m is not None, "anchor lost: module " + CROP)
+    out = []
+    for fi in m.all_funcs:
+        for n, c, nm in all_calls(ctx, fi):
+            if nm != "os.path.join":
+                continue
+            v = ConstFold(ctx, fi, {"crop_location": LOCATION_STANDIN}, lenient=True).ev(c)
+            if isinstance(v, str) and v.startswith(LOCATION_STANDIN + "/"):
+                rel = tuple(v[len(LOCATION_STANDIN) + 1:].split("/"))
+                out.append((fi, c, rel))
+    return out
+
+
+def templates(ctx):
+    m = ctx.prog.modules[CROP]
+    t = {}
+    for k in ("BTCH_NM", "RSLT_NM", "FNCT_NM", "INFO_NM"):
+        need(k in m.consts, "anchor lost: template constant %s" % k)
+        s = ctx.prog.fold_str(m, m.consts[k])
+        need(s is not None, "template %s is not a foldable string" % k)
+        t[k] = s
+    return t
+
+
+def naming_rule(ctx, rid):
+    """Writers and readers of batch / result / settings / function files use
+    the same directory and the same template."""
+    import fnmatch
+    rr = ctx.rule(rid, "every crop path uses the directory and template of its writer", floor=14)
+    t = templates(ctx)
+    need("{}" in t["RSLT_NM"] and "{}" in t["BTCH_NM"], "batch / result templates lost their id field")
+    if t["RSLT_NM"].format("7") == t["BTCH_NM"].format("7"):
+        rr.bad(ctx.finding(rid, None, None, "batch and result templates are identical", construct="templates-equal"))
+    shape = {
+        ("results", t["RSLT_NM"].format("@")): "result",
+        ("batches", t["BTCH_NM"].format("@")): "batch",
+        (t["INFO_NM"],): "settings",
+        (t["FNCT_NM"],): "function",
+        ("batches",): "batches dir", ("results",): "results dir",
+        ("__qsub_script__.sh",): "private submission script",
+    }
+    res_pat = t["RSLT_NM"].format("*")
+    bat_pat = t["BTCH_NM"].format("*")
+    for fi, c, rel in crop_paths(ctx):
+        ctx.touch(fi)
+        # globs use '*' as id
+        rel_n = tuple(x.replace("*", "@") for x in rel)
+        kind = shape.get(rel_n)
+        if kind is not None:
+            rr.ok("%s: %s -> %s" % (fi.qualname, "/".join(rel), kind), "%s|%s" % (fi.qualname, norm(c)))
+            continue
+        last = rel[-1]
+        if fnmatch.fnmatchcase(last.replace("@", "0"), res_pat) or fnmatch.fnmatchcase(last.replace("@", "0"), bat_pat) or rel[0] in ("results", "batches"):
+            rr.bad(ctx.finding(rid, fi, c, "the path %s pairs a directory and a file template that no writer uses (writers: results/%s, batches/%s): this reader / writer looks at files that are never produced" % ("/".join(rel), t["RSLT_NM"], t["BTCH_NM"])),
+                   "%s: %s" % (fi.qualname, "/".join(rel)))
+        else:
+            raise AnalysisError("unrecognised crop path %s in %s" % ("/".join(rel), fi.qualname))
+    return rr
+
+
+# ---------------------------------------------------------------- dict-merge precedence
+def _merge_layers(expr, fi, depth=0):
+    """A dict display built only from ** splats -> ordered list of layer
+    texts (later wins), following single local definitions."""
+    from ..util import single_def
+    if isinstance(expr, ast.Dict) and all(k is None for k in expr.keys):
+        out = []
+        for v in expr.values:
+            sub = _merge_layers(v, fi, depth + 1)
+            out += sub if sub is not None else [norm(v)]
+        return out
+    if isinstance(expr, ast.Call) and isinstance(expr.func, ast.Name) and expr.func.id == "dict" and len(expr.args) == 1 and not expr.keywords:
+        return _merge_layers(expr.args[0], fi, depth + 1) or [norm(expr.args[0])]
+    return None
+
+
+def precedence_rule(ctx, rid):
+    """Explicit constants > runner constants > runner resources, the same at
+    sow time (Crop.parse_constants) as in a direct run
+    (Runner.run_combos -> combo_runner_to_ds)."""
+    from ..flow import path_key
+    rr = ctx.rule(rid, "kwargs precedence explicit constants > runner constants > runner resources, same in sowing and direct runs", floor=3)
+    prog = ctx.prog
+    pc = prog.need_func(CROP + ".Crop.parse_constants")
+    g = build_cfg(pc.node)
+    ctx.touch(pc, g)
+    # symbolic evaluation of the successive dict merges of the variable returned
+    order = None
+    rets = [n for n in g.nodes if n.kind == "stmt" and isinstance(n.ast, ast.Return) and n.ast.value is not None]
+    need(len(rets) == 1 and isinstance(rets[0].ast.value, ast.Name), "idiom changed: parse_constants return")
+    var = rets[0].ast.value.id
+    layers = ["<explicit>"]
+    # walk the straight-line assignments to var in source order
+    assigns = [n for n in g.nodes if n.kind == "stmt" and isinstance(n.ast, ast.Assign) and len(n.ast.targets) == 1 and norm(n.ast.targets[0]) == var]
+    assigns.sort(key=lambda n: n.lineno)
+    for a in assigns:
+        v = a.ast.value
+        ml = _merge_layers(v, pc)
+        if ml is None:
+            if isinstance(v, ast.Call) and norm(v.func) == "parse_constants":
+                layers = ["<explicit>"]
+                continue
+            raise AnalysisError("parse_constants: unrecognised update of %s: %s" % (var, norm(v)))
+        new = []
+        for l in ml:
+            if l == var:
+                new += layers
+            else:
+                new.append(l)
+        layers = new
+    def cls(l):
+        if l == "<explicit>":
+            return "explicit"
+        if l.endswith("._constants"):
+            return "constants"
+        if l.endswith("._resources"):
+            return "resources"
+        return l
+    got = [cls(l) for l in layers]
+    want = ["resources", "constants", "explicit"]
+    if got != want:
+        rr.bad(ctx.finding(rid, pc, rets[0].ast, "sown keyword arguments are merged in the order %s (later wins) but a direct run uses %s: a key present in two of them gets a different value when sown" % (got, want),
+                           construct="sow-precedence " + ">".join(got)), "sow precedence")
+    else:
+        rr.ok("Crop.parse_constants merges %s (later wins)" % " < ".join(got))
+    # direct run: Runner.run_combos/run_cases constants={**self._constants, **dict(constants)}; combo_runner_to_ds {**resources, **constants}
+    runner = prog.need_cls("xyzpy.gen.farming.Runner")
+    for mname in ("run_combos", "run_cases"):
+        m = runner.methods.get(mname)
+        need(m is not None, "anchor lost: Runner." + mname)
+        ctx.touch(m)
+        found = False
+        for n, c, nm in all_calls(ctx, m):
+            if nm in ("xyzpy.gen.combo_runner.combo_runner_to_ds", "xyzpy.gen.case_runner.case_runner_to_ds"):
+                cexp = arg(c, None, "constants")
+                rexp = arg(c, None, "resources")
+                ml = _merge_layers(cexp, m) if cexp is not None else None
+                found = True
+                if ml is None or [x.replace("dict(constants)", "constants") for x in ml] != ["self._constants", "constants"] or norm(rexp) != "self._resources":
+                    rr.bad(ctx.finding(rid, m, c, "Runner.%s passes constants=%s, resources=%s; expected stored constants overridden by the call's constants, and the stored resources" % (mname, norm(cexp) if cexp else None, norm(rexp) if rexp else None),
+                                       construct="runner-precedence " + mname), "runner %s precedence" % mname)
+                else:
+                    rr.ok("Runner.%s: constants = stored < explicit; resources = stored" % mname)
+        need(found, "anchor lost: Runner.%s does not call the to_ds runner" % mname)
+    ctd = prog.need_func("xyzpy.gen.combo_runner.combo_runner_to_ds")
+    ctx.touch(ctd)
+    okc = False
+    for n, c, nm in all_calls(ctx, ctd):
+        if nm == "xyzpy.gen.combo_runner.combo_runner_core":
+            cexp = arg(c, None, "constants")
+            ml = _merge_layers(cexp, ctd) if cexp is not None else None
+            if ml == ["resources", "constants"]:
+                okc = True
+                rr.ok("combo_runner_to_ds: function kwargs = resources < constants")
+            else:
+                rr.bad(ctx.finding(rid, ctd, c, "combo_runner_to_ds passes constants=%s to the sweep; expected {**resources, **constants}" % (norm(cexp) if cexp else None), construct="to_ds-precedence"), "to_ds precedence")
+                okc = True
+    need(okc, "anchor lost: combo_runner_to_ds -> combo_runner_core")
+    return rr
